@@ -1686,7 +1686,11 @@ class Stream(AbstractStream):
         # new flow rate data and thermal condition.
         if isinstance(self, tmo.MultiStream):
             self.reset_cache()
-            for phase, stream in self._streams.items():
+            streams = self._streams
+            phases = self._imol._phases
+            # Streams of phases that were removed have nothing left to follow.
+            for phase in [i for i in streams if i not in phases]: del streams[phase]
+            for phase, stream in streams.items():
                 stream._imol = self._imol.get_phase(phase)
                 stream._thermal_condition = self._thermal_condition
         
